@@ -133,7 +133,7 @@ def py_eq(a, b):
         return False
     if isinstance(a, SFloat) or isinstance(b, SFloat):
         if isinstance(a, SFloat) and isinstance(b, SFloat):
-            return mk_bool(z3.And(a.t == b.t, z3.Not(_isnan(a.t))))
+            return mk_bool(a.t == b.t)  # identity of the binary64 value (NaN == NaN, as the native comparison does)
         raise OutOfReach("float comparison")
     if isinstance(a, (list, tuple)) and isinstance(b, (list, tuple)):
         if type(a) is not type(b) or len(a) != len(b):
